@@ -1239,6 +1239,13 @@ class Authenticated(BaseClientHandler):
             if r"\Noselect" in mbox.attributes:
                 raise NoSuchMailbox(f"'{cmd.mailbox_name}' has been deleted")
             async with cmd.ready_and_okay(mbox):
+                # (while we waited a DELETE may have turned the mailbox in to
+                # a `\Noselect` place holder)
+                #
+                if r"\Noselect" in mbox.attributes:
+                    raise NoSuchMailbox(
+                        f"'{cmd.mailbox_name}' has been deleted"
+                    )
                 uid = await mbox.append(
                     cmd.message, cmd.flag_list, cmd.date_time
                 )
